@@ -37,6 +37,16 @@ type FakeZK struct {
 	ReqCount   map[string]int                            // "op path" -> number of requests seen
 	Dials      int
 	RefuseDial bool
+	// Hold: watch notifications are queued instead of sent; the simulator delivers them one at a
+	// time (DeliverOne) — the watch itself is consumed when the change happens, as in ZooKeeper
+	Hold    bool
+	pending []heldEvent
+}
+
+type heldEvent struct {
+	s    *session
+	pkt  []byte
+	desc string
 }
 
 type session struct {
@@ -363,7 +373,32 @@ func (s *session) event(typ int32, path string) {
 	e.i32(typ)
 	e.i32(3) // SyncConnected
 	e.str(path)
+	if s.zk.Hold {
+		s.zk.pending = append(s.zk.pending, heldEvent{s, e.b, fmt.Sprintf("%d %s", typ, path)})
+		return
+	}
 	s.send(e.b)
+}
+
+// DeliverOne sends the oldest held notification; it reports whether there was one.
+func (z *FakeZK) DeliverOne() bool {
+	z.mu.Lock()
+	defer z.mu.Unlock()
+	if len(z.pending) == 0 {
+		return false
+	}
+	h := z.pending[0]
+	z.pending = z.pending[1:]
+	z.logf("s%d deliver %s", h.s.id, h.desc)
+	h.s.send(h.pkt)
+	return true
+}
+
+// Pending is the number of held notifications.
+func (z *FakeZK) Pending() int {
+	z.mu.Lock()
+	defer z.mu.Unlock()
+	return len(z.pending)
 }
 
 func parent(p string) string {
